@@ -189,7 +189,6 @@ func c09(c *an.Ctx) {
 
 	c.Check("R-BOOL", "mergeTypeRefs nullability lattice: non-null iff isInput || (aNonNull && bNonNull); recursion keeps isInput; callers pass false for outputs and true for inputs", 5, func(o *an.O) {
 		fn := c.NeedFunc(fed, "mergeTypeRefs")
-		isInput := fn.Params[2].Name()
 		// the NON_NULL wrapping return
 		var wrapRet ssa.Instruction
 		for _, l := range an.StructLits(fn, "introspectionTypeRef") {
@@ -206,62 +205,70 @@ func c09(c *an.Ctx) {
 			return
 		}
 		o.Site(wrapRet)
-		// collect the guard expressions over the atoms
-		var conds []string
-		for _, g := range an.GuardsOf(wrapRet.Block()) {
-			s := an.Expr(g.Cond)
-			if !strings.Contains(s, "phi:") && !strings.Contains(s, isInput) {
-				continue
+		// The decision is evaluated, not pattern-matched: for each of the eight
+		// assignments of (a is NON_NULL, b is NON_NULL, isInput) the control flow is
+		// explored with those atoms fixed (every other condition forks) and the
+		// NON_NULL-wrapping return must be reachable exactly when the lattice says so.
+		nAtoms := map[int]int{}
+		kindAtom := func(v ssa.Value) (int, bool, bool) { // which parameter, negated, ok
+			bo, ok := v.(*ssa.BinOp)
+			if !ok || (bo.Op != token.EQL && bo.Op != token.NEQ) {
+				return 0, false, false
 			}
-			if strings.Contains(s, "nil)") || strings.Contains(s, "(phi:a,") || strings.Contains(s, "mergeTypeRefs(") {
-				continue // the error test of the recursive call, not a nullability atom
-			}
-			if !g.Polarity {
-				s = "!(" + s + ")"
-			}
-			conds = append(conds, "("+s+")")
-		}
-		// `if a || b {` lowers to control flow: blocks on the dominator chain entered from several Ifs
-		for d := wrapRet.Block(); d != nil; d = d.Idom() {
-			if dg := an.DisjunctGuards(d); dg != nil {
-				okAtoms := true
-				for _, g := range dg {
-					if !strings.Contains(g, "phi:") && !strings.Contains(g, isInput) {
-						okAtoms = false
+			for _, pr := range [][2]ssa.Value{{bo.X, bo.Y}, {bo.Y, bo.X}} {
+				if k, ok := an.ConstString(pr[1]); !ok || k != "NON_NULL" {
+					continue
+				}
+				ld, ok := pr[0].(*ssa.UnOp)
+				if !ok || ld.Op != token.MUL {
+					continue
+				}
+				fa, ok := ld.X.(*ssa.FieldAddr)
+				if !ok || an.FieldName(fa.X.Type(), fa.Field) != "Kind" {
+					continue
+				}
+				for k := 0; k < 2; k++ {
+					if fa.X == ssa.Value(fn.Params[k]) {
+						return k, bo.Op == token.NEQ, true
 					}
 				}
-				if okAtoms {
-					conds = append(conds, "("+strings.Join(dg, " || ")+")")
+			}
+			return 0, false, false
+		}
+		an.Instrs(fn, func(i ssa.Instruction) {
+			if v, ok := i.(ssa.Value); ok {
+				if k, _, ok := kindAtom(v); ok {
+					nAtoms[k]++
+					o.Site(i)
 				}
 			}
-		}
-		if len(conds) == 0 {
-			o.FailAt(wrapRet, "the NON_NULL result is not conditional on the nullability of the inputs")
-			return
-		}
-		expr := strings.Join(conds, " && ")
-		// the two "is NON_NULL" flags, identified by role: a boolean phi that becomes true
-		// exactly under `<param k>.Kind == "NON_NULL"`
-		atomA, atomB := nonNullFlag(fn, 0), nonNullFlag(fn, 1)
-		if atomA == "" || atomB == "" {
-			o.FailAt(wrapRet, "cannot find the flags recording that a / b are NON_NULL")
+		})
+		if nAtoms[0] == 0 || nAtoms[1] == 0 {
+			o.FailAt(wrapRet, "the NON_NULL result is not conditional on the nullability of the inputs (no test of a.Kind / b.Kind against NON_NULL)")
 			return
 		}
 		for mask := 0; mask < 8; mask++ {
 			a, b, in := mask&1 != 0, mask&2 != 0, mask&4 != 0
-			env := map[string]bool{atomA: a, atomB: b, isInput: in}
-			got, ok := evalBool(expr, env)
-			if !ok {
-				o.FailAt(wrapRet, "cannot evaluate the nullability condition %s", expr)
-				return
-			}
+			sim := &an.BoolSim{Fn: fn, Atom: func(v ssa.Value) (bool, bool) {
+				if v == ssa.Value(fn.Params[2]) {
+					return in, true
+				}
+				if k, neg, ok := kindAtom(v); ok {
+					val := a
+					if k == 1 {
+						val = b
+					}
+					return val != neg, true
+				}
+				return false, false
+			}}
+			got := sim.Run()[wrapRet.Block()]
 			want := (a || b) && (in || (a && b))
 			if got != want {
 				o.FailAt(wrapRet, "nullability lattice wrong for aNonNull=%v bNonNull=%v isInput=%v: the merged type is non-null=%v, expected %v (an output may only be non-null if every side guarantees it; an input is required if any side requires it)", a, b, in, got, want)
 				return
 			}
 		}
-		o.Note("condition: %s", expr)
 		// recursion keeps isInput
 		for _, call := range an.Calls(fn, an.Mod(fed, "", "mergeTypeRefs")) {
 			o.Site(call)
